@@ -200,6 +200,13 @@ def rot_like(rot):
 
 
 def replay(data):
+  if data.get('kind') == 'shape_sweep':
+    silent = type('R', (), {'ob': lambda self, *a, **k: None, 'violation': lambda self, *a, **k: setattr(self, 'v', a)})()
+    shape_sweep(silent)
+    return hasattr(silent, 'v'), (silent.v[1] if hasattr(silent, 'v') else 'every valid (length, block) pair is accepted')
+  if data.get('kind') == 'donation':
+    problems, concrete = donation_check()
+    return bool(concrete), '; '.join(concrete + problems) or 'arrays stay valid'
   wh = _wh()
   if data['kind'] == 'wht':
     n, small_n = data['n'], data['small_n']
@@ -244,6 +251,69 @@ def _replay_with_key(data, key):
   return d > 1e-6, 'pytree round trip discrepancy %.3g %s' % (d, where)
 
 
+def shape_sweep(run):
+  """Abstract evaluation (jax.eval_shape: tracing only, no solver, no compilation) over the WHOLE size range of the statement:
+  every (length 2^0..2^14, block size 2^1..2^8) whose factorisation needs at most 8 einsum axes (single-digit axis names) is
+  accepted and returns a vector of the same length; the value-level equality with the Sylvester matrix is decided by the solver
+  only up to the bound stated in `bounds`."""
+  wh = _wh()
+  bad = []
+  n_ok = 0
+  for a in range(0, 15):
+    for b in range(1, 9):
+      n, small = 2 ** a, 2 ** b
+      ndims = -(-a // b) if a else 0
+      try:
+        out = jax.eval_shape(lambda v: wh.walsh_hadamard_transform(v, small_n=small), jax.ShapeDtypeStruct((n,), np.float32))
+        if ndims > 8 or out.shape != (n,):
+          bad.append('length %d, block %d: accepted with %d axes / output shape %s' % (n, small, ndims, out.shape))
+        n_ok += 1
+      except ValueError as e:
+        if ndims <= 8:
+          bad.append('length %d, block %d (a valid pair: %d axes) is rejected: %s' % (n, small, ndims, str(e)[:60]))
+  run.ob('shape-sweep(lengths 2^0..2^14 x blocks 2^1..2^8)', 'sat' if bad else 'unsat', detail=bad[:3] or None, nontrivial=False)
+  if bad:
+    run.violation('wht:valid-pair-rejected', 'walsh_hadamard_transform: %s' % bad[0], {'kind': 'shape_sweep'}, True)
+  return n_ok
+
+
+def donation_check():
+  """Caller-owned arrays stay valid (rotate, invert twice with different keys is a history inside the statement): IR dataflow
+  on the jaxpr traced with jit enabled + concrete is_deleted()/value confirmation."""
+  from .c07 import donation_scan
+  wh = _wh()
+  x = jnp.asarray([1.0, -2.0, 3.0, 0.5, 4.0])
+  key = jax.random.PRNGKey(3)
+  y, shp = wh.structured_rotation(x, key)
+  problems = []
+  t = {'a': x, 'b': jnp.asarray([[1.0, 2.0], [3.0, 4.0]])}
+  ty, tshp = wh.structured_rotation_pytree(t, key)
+  with jax.ensure_compile_time_eval():       # shape arithmetic on constants (jnp.prod(original_shape)) must stay concrete while tracing
+    p1, _ = donation_scan(lambda v, k: wh.structured_rotation(v, k)[0], (x, key))
+    p2, _ = donation_scan(lambda v, k: wh.inverse_structured_rotation(v, k, shp), (y, key))
+    p3, _ = donation_scan(lambda v, k: wh.inverse_structured_rotation_pytree(v, k, tshp), (ty, key))
+  problems = p1 + p2 + p3
+  concrete = []
+  y_copy, x_copy = np.asarray(y).copy(), np.asarray(x).copy()
+  r1 = wh.inverse_structured_rotation(y, key, shp)
+  try:
+    r2 = wh.inverse_structured_rotation(y, jax.random.PRNGKey(4), shp)
+    if y.is_deleted() or not np.array_equal(np.asarray(y), y_copy):
+      concrete.append('the rotated array handed to inverse_structured_rotation was deleted / changed')
+    if not np.allclose(np.asarray(r1), x_copy, atol=1e-5):
+      concrete.append('inverse with the same key does not restore the input')
+  except RuntimeError as e:
+    concrete.append('second inverse on the same rotated array fails: %s' % str(e).splitlines()[0][:100])
+  try:
+    wh.inverse_structured_rotation_pytree(ty, key, tshp)
+    wh.inverse_structured_rotation_pytree(ty, key, tshp)
+    if x.is_deleted():
+      concrete.append('input deleted')
+  except RuntimeError as e:
+    concrete.append('second pytree inverse on the same rotated tree fails: %s' % str(e).splitlines()[0][:100])
+  return problems, concrete
+
+
 def check(run):
   timeout = 20.0 if run.tier == 'quick' else 120.0
   run.functions += ['fedjax.aggregators.walsh_hadamard.walsh_hadamard_transform', 'structured_rotation',
@@ -268,3 +338,9 @@ def check(run):
   for shape in shapes:
     run_rotation(run, shape, timeout)
   run_pytree(run, timeout)
+  run.extra['shape_sweep_pairs_accepted'] = shape_sweep(run)
+  problems, concrete = donation_check()
+  run.ob('donation-dataflow(rotation / inverse / pytree inverse)', 'sat' if (problems or concrete) else 'unsat', detail=(problems + concrete)[:3] or None, nontrivial=True)
+  if problems or concrete:
+    run.violation('rotation:donates-caller-array', 'rotation / inverse rotation invalidates an array of the caller: %s' % '; '.join((concrete + problems)[:2]),
+                  {'kind': 'donation'}, bool(concrete))
